@@ -52,6 +52,22 @@ Theorem exec_routes_longest_prefix : forall c a s p,
 Proof. exact exec_routes. Qed.
 Print Assumptions exec_routes_longest_prefix.
 
+(* the same for the Execute event of any reachable state, without hypothesis on indices *)
+Theorem exec_routes_longest_prefix_reachable : forall cfg t0 evs tnow c a p,
+  let s := enter tnow (fst (run (init cfg t0) evs)) in
+  aget dkey_eqb (x_instance a, x_digest a) (s_inflight s) = None ->
+  longest_prefix_pq s (x_plat a) (x_instance a) = Some p ->
+  let k := mkSK (p_key p) (nth (fst (fst (fst (x_sel a)))) (p_scs p) 0%N) in
+  let t := s_ntasks s in
+  let s' := exec_start c a s in
+  s_ntasks s' = S t /\ s_nops s' = S (s_nops s) /\
+  (t_suffix (get_task s' t) = drop_prefix (pk_prefix (p_key p)) (x_instance a) /\
+   t_instance (get_task s' t) = x_instance a /\ t_digest (get_task s' t) = x_digest a /\
+   t_ops (get_task s' t) = [(mkI k (x_keys a), s_nops s)]) /\
+  task_scq s' t = k.
+Proof. exact exec_routes_reachable. Qed.
+Print Assumptions exec_routes_longest_prefix_reachable.
+
 (* and the suffix is what remains: prefix ++ suffix = instance name *)
 Theorem drop_prefix_app : forall pre l, is_prefix pre l = true -> l = pre ++ drop_prefix pre l.
 Proof. exact drop_prefix_app. Qed.
